@@ -292,6 +292,17 @@ def check_ic(ctx: Ctx, c: Dict[str, Any]) -> None:
                         ctx.violation(dict(**sig, kind=kind, what="exact_inverse"), f"inverse consistency error of an exact inverse pair ({kind}) is {float(e.abs().max()):.3g} {units} units (align_corners={ac})", c)
                 except Exception as ex:
                     ctx.violation(dict(**sig, kind=kind, exc=type(ex).__name__), f"raised {type(ex).__name__}: {str(ex)[:140]}", c)
+            # without 'grid' the domain is the default grid of the dense field's SHAPE (shape = reversed size)
+            try:
+                gdef = Grid(shape=tuple(reversed(n)))
+                for kind, f_, i_ in (("matrix+flow", fwd_lin, fwd_flow), ("flow+matrix", fwd_flow, fwd_lin), ("flow+flow", fwd_flow, fwd_flow)):
+                    e0 = L.inverse_consistency_loss(f_.clone(), i_.clone(), units=units, reduction="none")
+                    e1 = L.inverse_consistency_loss(f_.clone(), i_.clone(), grid=gdef, units=units, reduction="none")
+                    if tuple(e0.shape) != tuple(e1.shape) or max_err(e0, e1) > 1e-9 * max(1.0, float(e1.abs().max())):
+                        ctx.violation(dict(**sig, kind=kind, what="default_grid"), f"inverse_consistency_loss({kind}) without grid differs from grid=Grid(shape=field shape) "
+                                      f"(shapes {tuple(e0.shape)} vs {tuple(e1.shape)})", c)
+            except Exception as ex:
+                ctx.violation(dict(**sig, what="default_grid", exc=type(ex).__name__), f"raised {type(ex).__name__}: {str(ex)[:140]}", c)
             # a pair that is NOT inverse: the error must be reported in the requested unit
             try:
                 e = L.inverse_consistency_loss(fwd_lin, fwd_lin, grid=g, units=units, reduction="none")
